@@ -13,7 +13,7 @@ ID = 'C10'
 LEVEL = 'model_checking'
 RULE = ('BFS over pre-reset update() histories of the real online monitor (discrete: product BFS as in C02, dense: all schedule prefixes as in C05); '
         'in EVERY reached state reset() is applied to the real object and a family of post-reset input sequences (all sequences of length <= 2 '
-        'over the event alphabet plus constant probes longer than the largest bound; dense: fixed probe signals in two chunkings) is fed; every '
+        'over the event alphabet plus constant probes longer than the largest bound, plus - for two variables - update() calls that leave one variable out; dense: fixed probe signals in two chunkings) is fed; every '
         'post-reset output and sampling_violation_counter value must equal what a freshly parsed (and pastified) monitor returns for the same inputs; '
         'the initial state is included (reset() before the first update); a (state, probe) pair is one checked obligation; '
         'faulty layer: pre-reset histories over an alphabet that contains samples outside the domain of sqrt/ln/log/division, so that they contain update() calls '
@@ -37,13 +37,19 @@ class ResetModel(c02.DtOnlineModel):
         E = self.events
         K = F.max_bound(self.f) + self.delay + 2
         ps = [(a, b) for a in E for b in E] + [tuple([e] * K) for e in E]
+        if len(self.vs) == 2:
+            # post-reset update() calls that leave a variable out (None): a fresh monitor then works with the variable's initial value,
+            # and so must a monitor that was reset - whatever the variable held before
+            xs = sorted({e[0] for e in E})
+            ys = sorted({e[1] for e in E})
+            ps += [((x, None),) for x in xs] + [((None, y), (x, None)) for x in xs[:2] for y in ys[:2]]
         return ps
 
     def run_probe(self, obj, q):
         """feed q to obj; returns list of (outcome, counter)"""
         outs = []
         for i, e in enumerate(q):
-            o = impl.outcome(impl.dt_update, obj, 100 + i, dict(zip(self.vs, e)))
+            o = impl.outcome(impl.dt_update, obj, 100 + i, {v: x for v, x in zip(self.vs, e) if x is not None})
             outs.append((explore.snapshot(o), obj.sampling_violation_counter))
         return outs
 
